@@ -2,6 +2,7 @@
 # usage: tools/run_seeded.sh <patch.diff> <property-id> [more property ids...]
 # applies the patch to /repo, runs the quick checks, restores /repo; prints one line per check
 patch="$1"; shift
+case "$patch" in /*) ;; *) patch="$(pwd)/$patch";; esac
 cd /verif || exit 2
 if ! git -C /repo diff --quiet; then echo "refusing: /repo has uncommitted changes"; exit 2; fi
 git -C /repo apply "$patch" || { echo "patch does not apply"; exit 2; }
